@@ -462,6 +462,24 @@ func (c *Ctx) ruleRetryLoopExits(rr *RuleRep, a *retryAnchors, f *ssa.Function, 
 			if (b == failEdge.B && k == failEdge.K) || failDst.Dominates(b) {
 				continue // the failure edge and what follows it
 			}
+			// an exit below a join that only the failure edge leads to (`if c.queueRetry(err, rest...) { break }`: the flag
+			// tested is true only where the failure was handled)
+			{
+				bb, kk := b, k
+				viaOther := false
+				canReachFrom(f, call, nil, -1, func(in ssa.Instruction) bool { return false }, PathQ{BlockEdge: func(x *ssa.BasicBlock, j int) bool {
+					if x == failEdge.B && j == failEdge.K {
+						return true
+					}
+					if x == bb && j == kk {
+						viaOther = true // the exit edge can be taken without the failure edge having been taken
+					}
+					return false
+				}})
+				if !viaOther {
+					continue
+				}
+			}
 			n++
 			after := call.Block().Dominates(b)
 			need := int64(0)
